@@ -23,7 +23,7 @@ from runner import HarnessError
 
 PID = "C44"
 LEVEL = "exploration"
-RULE = ("Hypothesis op sequences (<=14 ops): update with 1-3 keys (right/wrong types, wrong type in any position, unknown "
+RULE = ("Hypothesis op sequences (<=18 ops, incl. the staged-declaration motif: defer several values, then add_option + process_deferred one option at a time): update with 1-3 keys (right/wrong types, wrong type in any position, unknown "
         "key), attribute assignment, set()-specs rendered from typed intents (+malformed), deferred updates/specs with "
         "late add_option + process_deferred, reading a sequence option and changing the returned list in place (then optionally update() with it), reset, toggler/setter, save->load round trip; string values from "
         "YAML-special words, quotes, ': ', '#', newlines, spaces, arbitrary Unicode scalars; a listener that reacts to new values of one option by a nested update of two others (non-idempotent append) and runs "
@@ -220,8 +220,31 @@ _ops = st.one_of(
 )
 
 
+def _staged():
+    """motif: values for two or three not yet declared options are deferred (update_defer or set(defer=True)), then the
+    options are declared one at a time, each followed by process_deferred() - addons loaded one after the other"""
+    def build(t):
+        names, use_set, kvs, specs = t
+        chosen = [kv for kv in kvs if kv[0] in names] if not use_set else [sp for sp in specs if sp[0] in names]
+        seen, uniq = set(), []
+        for x in chosen:
+            if x[0] not in seen:
+                seen.add(x[0])
+                uniq.append(x)
+        ops = [("set", uniq, True)] if use_set else [("update_defer", uniq)]
+        if not uniq:
+            ops = []
+        for n in names:
+            ops += [("add_late", n), ("process_deferred",)]
+        return ops
+    return st.tuples(st.lists(st.sampled_from(LATE_NAMES), min_size=2, max_size=3, unique=True), st.booleans(),
+                     st.lists(_kv_late, min_size=2, max_size=5), st.lists(_spec(LATE_NAMES, LATE), min_size=2, max_size=5)).map(build)
+
+
 def strategy(ctx):
-    return st.lists(_ops, min_size=1, max_size=14)
+    segs = st.lists(st.one_of(_ops.map(lambda o: [o]), _ops.map(lambda o: [o]), _ops.map(lambda o: [o]), _ops.map(lambda o: [o]),
+                              _staged()), min_size=1, max_size=12)
+    return segs.map(lambda l: [op for seg in l for op in seg][:18])
 
 
 # ------------------------------------------------------------------ interpreter
@@ -697,10 +720,13 @@ def _roundtrip(ctx, opts, declared, dflt_of, kind_of, path, defaults, nt, step):
         fresh2 = _mk([n for n in declared if n not in LATE])
         try:
             optmanager.load_paths(fresh2, path)
-            for n in late:
+            # the options are declared one after the other (addons are loaded one by one), each followed by
+            # process_deferred(), in an order taken from the step number
+            order = late[step % len(late):] + late[:step % len(late)]
+            for n in order:
                 kind, _ = LATE[n]
                 fresh2.add_option(n, _typespec(kind), dflt_of(n), "late")
-            fresh2.process_deferred()
+                fresh2.process_deferred()
         except Exception as e:
             ctx.fail("roundtrip:deferred-load-raised:%s:%s" % (type(e).__name__, cls), "step %d values=%r: %r" % (step, {n: cur[n] for n in nondefault}, e))
             return
